@@ -1,7 +1,39 @@
 // Overlay child module of `response.rs` (compiled only under cfg(kani)); see DESIGN.md.
 #![allow(dead_code, unused_imports)]
 use super::*;
-use crate::verif_params::N;
+use crate::verif_params::{K as PROFILE, N};
+
+/// When set, `Content-Length`'s decimal rendering uses the model below instead of
+/// `i32::to_string` (core::fmt's function-pointer dispatch is very expensive for CBMC).  The C05
+/// harnesses leave it off: there the real rendering is compared with the layout oracle.
+pub(crate) static mut MODEL_DEC: bool = false;
+
+pub(crate) fn i32_to_string_hook(v: i32) -> String {
+    if !unsafe { MODEL_DEC } {
+        return v.to_string();
+    }
+    let mut digits = [0u8; 11];
+    let mut k = 0;
+    let neg = v < 0;
+    let mut x: i64 = (v as i64).abs();
+    loop {
+        digits[k] = b'0' + (x % 10) as u8;
+        k += 1;
+        x /= 10;
+        if x == 0 {
+            break;
+        }
+    }
+    let mut s = String::new();
+    if neg {
+        s.push('-');
+    }
+    while k > 0 {
+        k -= 1;
+        s.push(digits[k] as char);
+    }
+    s
+}
 
 pub(crate) const ALL_STATUS: [StatusCode; 11] = [
     StatusCode::Continue,
@@ -131,7 +163,7 @@ pub(crate) fn build(body_mode: usize) -> Built {
     let mut resp = Response::new(version, status);
     let mut len = if code == 100 || code == 204 { None } else { Some(0usize) };
     // optional explicit removal of the length before the body is set
-    if kani::any() {
+    if PROFILE != 2 && kani::any() {
         resp.set_content_length(None);
         len = None;
     }
@@ -150,22 +182,24 @@ pub(crate) fn build(body_mode: usize) -> Built {
         resp.set_body(Body::new(v));
         len = Some(body_len);
     }
-    let deprecation: bool = kani::any();
+    let deprecation: bool = if PROFILE == 2 { false } else { kani::any() };
     if deprecation {
         resp.set_deprecation();
     }
-    let encoding: bool = kani::any();
+    let encoding: bool = if PROFILE == 2 { false } else { kani::any() };
     if encoding {
         resp.set_encoding();
     }
-    let json: bool = kani::any();
+    // PROFILE 1 (quick tier) fixes the choices that only shift later bytes around: content type,
+    // server string and the number of Allow entries (2, symbolic methods)
+    let json: bool = if PROFILE >= 1 { true } else { kani::any() };
     // default content type is application/json (MediaType::default)
-    let set_ct: bool = kani::any();
+    let set_ct: bool = if PROFILE >= 1 { false } else { kani::any() };
     if set_ct {
         resp.set_content_type(if json { MediaType::ApplicationJson } else { MediaType::PlainText });
     }
     let json = if set_ct { json } else { true };
-    let server_sel: u8 = kani::any();
+    let server_sel: u8 = if PROFILE >= 1 { 0 } else { kani::any() };
     kani::assume(server_sel < 3);
     if server_sel != 0 {
         resp.set_server(SERVERS[server_sel as usize]);
@@ -173,7 +207,7 @@ pub(crate) fn build(body_mode: usize) -> Built {
         resp.set_server(SERVERS[0]);
     }
     let allow = [any_method(), any_method(), any_method()];
-    let n_allow: usize = kani::any();
+    let n_allow: usize = if PROFILE == 2 { 0 } else if PROFILE == 1 { 2 } else { kani::any() };
     kani::assume(n_allow <= 3);
     if kani::any() {
         let mut v = Vec::new();
@@ -242,10 +276,10 @@ pub(crate) fn model(b: &Built) -> Out {
     o
 }
 
-// @harness props=C05,C03 tiers=quick:N=0|N=1|N=12;thorough:N=0|N=1|N=2|N=10|N=11|N=12|N=100|N=101 unwind=max(26,N+2) cap=900 mem=8 covers=4
+// @harness props=C05,C03 tiers=quick:N=0,K=1|N=3,K=1;thorough:N=0,K=1|N=3,K=1|N=0|N=1|N=2|N=11|N=12|N=101 unwind=max(28,N+2) cap=3000 mem=12 covers=4
 // @fn Response::new Response::set_body Response::set_content_length Response::set_content_type Response::set_deprecation Response::set_encoding Response::set_server Response::set_allow Response::allow_method Response::write_all StatusLine::write_all ResponseHeaders::write_all ResponseHeaders::write_allow_header ResponseHeaders::write_deprecation_header Response::write_body StatusCode::raw Version::raw Method::raw MediaType::as_str
 // @claim write_all into a Vec equals the documented layout byte for byte (length and an arbitrary index), for symbolic status, version, flags, allow list (0..3 symbolic methods via either setter), server string, optional set_content_length(None) before the body; Content-Length present <=> status not in {100,204} or a body was set, and equals the body length
-// @bounds body: unset (N=0) or N-1 symbolic bytes; status x version symbolic over all 22 combinations; builder calls in one fixed order
+// @bounds body: unset (N=0) or N-1 symbolic bytes; status x version symbolic over all 22 combinations; builder calls in one fixed order; K=1 fixes content type (json), server string (default) and the number of Allow entries (2, methods symbolic); K=2 additionally no Allow, Deprecation or Accept-Encoding lines (status and version stay symbolic)
 #[kani::proof]
 fn c05_layout() {
     let b = build(N);
@@ -257,10 +291,10 @@ fn c05_layout() {
     let j: usize = kani::any();
     kani::assume(j < m.n);
     assert!(out.b[j] == m.b[j], "[C05] serialized byte differs from the documented layout");
-    kani::cover!(b.len.is_none());
-    kani::cover!(b.n_allow == 3 && b.deprecation && b.encoding && b.len.is_some());
-    kani::cover!(b.code == 503 && b.server_sel == 1);
-    kani::cover!(b.n_allow == 3 && b.allow[0] as u8 == b.allow[2] as u8);
+    kani::cover!(N > 0 || b.len.is_none());
+    kani::cover!(b.n_allow >= 2 && b.deprecation && b.encoding && b.len.is_some());
+    kani::cover!(b.code == 503 && (PROFILE == 1 || b.server_sel == 1));
+    kani::cover!(b.n_allow >= 2 && b.allow[0] as u8 == b.allow[1] as u8);
     std::mem::forget(r);
     std::mem::forget(out);
     std::mem::forget(b);
@@ -271,27 +305,27 @@ fn c05_layout() {
 pub(crate) struct ShortSink {
     pub b: [u8; OUTCAP],
     pub n: usize,
-    /// split writes at a symbolic point?
-    pub short: bool,
-    /// the previous write was cut short: accept everything now
-    pub rest: bool,
+    /// the write call (counted from 0) that is cut short at a symbolic point; all others accept
+    /// everything
+    pub split_call: usize,
     pub calls: usize,
+    pub was_split: bool,
 }
 impl ShortSink {
-    pub fn new(short: bool) -> Self {
-        ShortSink { b: [0; OUTCAP], n: 0, short, rest: false, calls: 0 }
+    pub fn new(split_call: usize) -> Self {
+        ShortSink { b: [0; OUTCAP], n: 0, split_call, calls: 0, was_split: false }
     }
 }
 impl Write for ShortSink {
     fn write(&mut self, buf: &[u8]) -> std::io::Result<usize> {
-        self.calls += 1;
         let mut k = buf.len();
-        if self.short && !self.rest && buf.len() > 1 {
+        if self.calls == self.split_call && buf.len() > 1 {
             let kk: usize = kani::any();
-            kani::assume(kk >= 1 && kk <= buf.len());
+            kani::assume(kk >= 1 && kk < buf.len());
             k = kk;
+            self.was_split = true;
         }
-        self.rest = k < buf.len();
+        self.calls += 1;
         let mut i = 0;
         while i < k {
             self.b[self.n] = buf[i];
@@ -304,7 +338,8 @@ impl Write for ShortSink {
         Ok(())
     }
     fn write_all(&mut self, buf: &[u8]) -> std::io::Result<()> {
-        // std's default loop, unrolled: this sink completes every burst with the second write.
+        // std's default loop, unrolled: this sink completes every burst with the second write
+        // (a loop over a slice of symbolic length is unwound to the bound on every call).
         if buf.is_empty() {
             return Ok(());
         }
@@ -341,14 +376,16 @@ impl Write for ArrSink {
     }
 }
 
-// @harness props=C05 tiers=quick:N=4;thorough:N=4|N=12 unwind=max(26,N+2) cap=900 mem=8 covers=1
+// @harness props=C05 tiers=quick:N=4,K=2;thorough:N=4,K=2|N=12,K=2|N=4,K=1 unwind=max(28,N+2) cap=3000 mem=20 covers=1
 // @fn Response::write_all StatusLine::write_all ResponseHeaders::write_all Response::write_body
 // @claim a sink that accepts only part of a write receives exactly the bytes a Vec receives
-// @bounds body of N-1 symbolic bytes; every write_all burst is split once at a symbolic point (1..len) and then completed
+// @bounds body of N-1 symbolic bytes; one write call, at a symbolic position in the sequence of calls, accepts only a symbolic non-empty proper prefix; std's default write_all loop (real code) completes it
 #[kani::proof]
 fn c05_short_sink() {
     let b = build(N);
-    let mut sink = ShortSink::new(true);
+    let split_call: usize = kani::any();
+    kani::assume(split_call < 40);
+    let mut sink = ShortSink::new(split_call);
     let r = b.resp.write_all(&mut sink);
     assert!(r.is_ok(), "[C05] write_all into a short-writing sink failed");
     let m = model(&b);
@@ -356,7 +393,7 @@ fn c05_short_sink() {
     let j: usize = kani::any();
     kani::assume(j < m.n);
     assert!(sink.b[j] == m.b[j], "[C05] short-writing sink received different bytes");
-    kani::cover!(sink.calls > 20);
+    kani::cover!(sink.was_split && sink.calls > 12);
     std::mem::forget(r);
     std::mem::forget(b);
 }
